@@ -436,8 +436,10 @@ V('c08-escape-order', 'C08', 'C08.R2',
   [(OBJ, r"""    escaped_str = escaped_str.replace('\\', '\\\\')
 """, ""),
    (OBJ, r"""    escaped_str = escaped_str.replace("'", "\\'")
+
     return escaped_str""", r"""    escaped_str = escaped_str.replace("'", "\\'")
     escaped_str = escaped_str.replace('\\', '\\\\')
+
     return escaped_str""")],
   'order')
 V('c08-flavor-keyword', 'C08', 'C08.R5',
